@@ -417,7 +417,10 @@ async fn eval_config(
                     (true, true) => "mixed",
                 };
                 let other = detail.get("same_command_naming_a_never_written_id").cloned().unwrap_or_else(|| expected[index].main.clone());
-                let family = if item.oracle == Oracle::Taint {
+                let family = if kind == "ungated" {
+                    // the gate let a command through: the answer's shape is beside the point
+                    item.family.to_string()
+                } else if item.oracle == Oracle::Taint {
                     format!("{}|content", item.family)
                 } else if kind == "score" {
                     format!("{}|{cause}|scores", item.family)
